@@ -429,6 +429,10 @@ class Walker:
         for k in n.keywords:
             kws.append((k.arg if k.arg is not None else "**", self.expr(k.value)))
         sf = T.strip(f)
+        # map(f, xs) is the comprehension (f(x) for x in xs)
+        if sf == T.glob("map") and len(args) == 2 and not kws:
+            self.emit("call", ("call", f, tuple(args), ()), n, awaited=awaited)
+            return ("bag", (("elem", ("call", args[0], (T.var("§m"),), ()), (), (("it", T.var("§m"), args[1]),)),), "gen")
         # aggregators over collections -> ('agg', name, bag)
         if sf[0] == "glob" and sf[1] in AGGREGATORS and args:
             items: List[Term] = []
@@ -482,12 +486,12 @@ class Walker:
     def bind(self, name: str, value: Term, node: ast.AST) -> None:
         ev = self.emit("bind", ("bind", T.var(name), value), node)
         sv = T.strip(value)
-        is_acc_init = sv[0] == "bag" and not sv[1] or (sv[0] == "call" and sv[1][0] == "glob" and sv[1][1] in ("list", "set") and not sv[2])
+        is_acc_init = (sv[0] == "bag" and (len(sv) < 3 or sv[2] in ("list", "set", "gen"))) or (sv[0] == "call" and sv[1][0] == "glob" and sv[1][1] in ("list", "set") and not sv[2])
         muts = self.mut.get(name, set()) & _MUTATORS
         if is_acc_init and muts <= {"append", "add", "extend", "update", "<aug>"} and self._in_loop == 0:
             self.acc_ctx[name] = (len(self.guards), len(self.iters))
             kind = sv[2] if sv[0] == "bag" else sv[1][1]
-            self.env[name] = ("bag", (), kind)
+            self.env[name] = ("bag", sv[1] if sv[0] == "bag" else (), kind)
             return
         self.acc_ctx.pop(name, None)
         if muts - {"cancel", "set", "<setattr>"}:
@@ -758,10 +762,24 @@ class Walker:
         return False
 
     def s_With(self, st: ast.With):
+        suppress = False
         for item in st.items:
             v = self.expr(item.context_expr)
+            sv = T.strip(v)
+            if sv[0] == "call" and sv[1][0] == "glob" and sv[1][1] in ("contextlib.suppress", "suppress"):
+                suppress = True
             if item.optional_vars is not None:
                 self.assign_target(item.optional_vars, ("enter", v), st)
+        if suppress:
+            # `with suppress(E): body` == `try: body except E: pass`
+            self._try_counter += 1
+            saved = self.tries
+            self.tries = saved + ((self._try_counter, "body"),)
+            saved_env = dict(self.env)
+            self.block(st.body)
+            self.tries = saved
+            self.env = self._merge(("unknown", "try-merge"), self.env, saved_env)
+            return False
         return self.block(st.body)
 
     s_AsyncWith = s_With
@@ -801,7 +819,13 @@ class Walker:
             if not self.block(h.body):
                 ends.append(self.env)
         self.tries = saved_tries
-        self.guards = saved_g if (st.handlers and len(ends) > 1) or t_body else g_body
+        if (st.handlers and len(ends) > 1) and not t_body:
+            # control arrives here from the end of the body or from a handler: what the body
+            # established (negated early-exit tests) holds on the no-exception path only
+            extra = g_body[len(saved_g):]
+            self.guards = saved_g + tuple(("g", ("or", (("not", ("unknown", "try-merge")), T.guard_term(g))), True) for g in extra)
+        else:
+            self.guards = saved_g if t_body else g_body
         if ends:
             env = ends[0]
             for e2 in ends[1:]:
